@@ -182,9 +182,28 @@ def obstacle_layout_case(ctx, layout, action=Action.MOVE_FORWARD, limit=20000):
     ctx.hit('obstacles.outcomes', n_out)
     ctx.add('max_outcomes_per_layout', 0)
     ctx.extra['max_outcomes_per_layout'] = max(ctx.extra.get('max_outcomes_per_layout', 0), n_out)
-    if unscripted or not complete:
-        ctx.inconc(f'move_obstacles outcome enumeration incomplete on {payload["layout"]} '
-                   f'(unscripted generator method or limit {limit})')
+    if unscripted:
+        # the function draws in a way the scripted generator cannot enumerate (a continuous draw, say): fall back to many
+        # real generators - every outcome seen is still checked, and a free neighbour that is a possible destination shows up
+        # among 400 samples with overwhelming probability
+        ctx.hit('obstacles.sampled_instead_of_enumerated')
+        for seed in range(400):
+            s_ = build(layout)
+            ok, _ = call_real(fn, s_, action, rng=np.random.default_rng(seed))
+            n_out += 1
+            if not ok:
+                ctx.violation('obstacles', 'move_obstacles.raises', f'layout {payload["layout"]}: raised {describe_exc(_)} for seed {seed}',
+                              'obstacle_case', dict(payload, seed=seed))
+                continue
+            r = check_obstacle_outcome(ctx, pre_cells, pre_agent, s_, f'layout {payload["layout"]} seed {seed}', dict(payload, seed=seed))
+            if r:
+                _, new, _ = r
+                dests |= (new - old)
+                for p in old:
+                    if p in new:
+                        stays[p] += 1
+    elif not complete:
+        ctx.inconc(f'move_obstacles outcome enumeration incomplete on {payload["layout"]} (limit {limit})')
         return
     # completeness over the outcome set
     ctx.hit('obstacles.completeness')
@@ -272,9 +291,19 @@ def teleport_case(ctx, layout, agent, action):
     if partners:
         ctx.hit('teleport.with_partner')
         ctx.nontrivial(('tp', tuple(payload['layout']), y0, x0))
-        if unscripted or not complete:
+        if unscripted:
+            ctx.hit('teleport.sampled_instead_of_enumerated')
+            for seed in range(300):
+                ok, res = call_real(run, np.random.default_rng(seed))
+                if ok:
+                    p_ = enc.es(res)[1]
+                    if (p_[0], p_[1]) not in partners:
+                        ctx.violation('teleport', 'teleport.wrong_destination', f'{label}: agent sent to ({p_[0]},{p_[1]}) (seed {seed}), not '
+                                      f'one of the partners {sorted(partners)}', 'teleport_case', payload)
+                    seen.add((p_[0], p_[1]))
+        elif not complete:
             ctx.inconc(f'teleport outcome enumeration incomplete on {label}')
-        elif seen != partners:
+        if (unscripted or complete) and seen != partners:
             ctx.violation('teleport', 'teleport.partner_never_chosen',
                           f'{label}: partners {sorted(partners - seen)} are never chosen over all {n} outcomes', 'teleport_case',
                           payload)
